@@ -264,9 +264,8 @@ def run_shard(cases, sub_seed, tier="quick"):
     return res
 
 
+REPLAY_BY_RERUN = True     # (see runner.run_property: the recorded tier / seed workload is re-executed)
+
+
 def replay(witness):
-    res = ShardResult()
-    print(witness)
-    res.evaluations = 1
-    res.inconclusive.append("C17 witnesses are self-describing (method, bad parameter values, state); re-run the check to reproduce")
-    return res
+    raise NotImplementedError("replayed by re-running the recorded workload")
